@@ -256,7 +256,11 @@ def run(ctx, chk):
             COPY = ("core::clone::Clone::clone", "alloc::slice::<impl [T]>::to_vec", "alloc::borrow::ToOwned::to_owned",
                     "core::convert::From::from", "core::convert::Into::into")
             plumbing = ("core::ops::deref::Deref::deref", "core::convert::AsRef::as_ref", "alloc::vec::Vec::<T, A>::as_slice")
-            real = [c_ for c_ in calls if c_ not in plumbing]
+            # (calls that only look at the input - a log statement, `len()` - do not make the copy something else: what counts
+            # is the one call that defines the returned value)
+            OBSERVERS = ("log::", "core::fmt::", "alloc::fmt::", "core::cmp::PartialOrd::", "core::slice::<impl [T]>::len",
+                         "alloc::vec::Vec::<T, A>::len", "core::slice::<impl [T]>::is_empty", "alloc::vec::Vec::<T, A>::is_empty")
+            real = [c_ for c_ in calls if c_ not in plumbing and not c_.startswith(OBSERVERS)]
             ok = len(real) == 1 and real[0] in COPY
             if ok:
                 from discharge import VEx as _V
